@@ -210,8 +210,8 @@ def create_for_folder_subcommand(
     """
     logger.verbose_logging = verbose
 
-    if not os.path.isabs(root_path):
-        root_path = os.path.join(os.getcwd(), root_path)
+    # absolute and normalised (no doubled / trailing separators), so that traversed paths equal the recorded ones
+    root_path = os.path.abspath(root_path)
 
     logger.verbose(f"Creating new generation for folder at path: {root_path} ...")
 
@@ -427,8 +427,8 @@ def create_for_single_files_subcommand(
     """
     logger.verbose_logging = verbose
 
-    if not os.path.isabs(root_path):
-        root_path = os.path.join(os.getcwd(), root_path)
+    # absolute and normalised (no doubled / trailing separators), so that traversed paths equal the recorded ones
+    root_path = os.path.abspath(root_path)
 
     assert len(single_file) != 0
 
@@ -592,8 +592,8 @@ def verify_entire_folder(
     """
     logger.verbose_logging = verbose
 
-    if not os.path.isabs(root_path):
-        root_path = os.path.join(os.getcwd(), root_path)
+    # absolute and normalised (no doubled / trailing separators), so that traversed paths equal the recorded ones
+    root_path = os.path.abspath(root_path)
 
     if single_file is not None and not os.path.isabs(single_file):
         single_file = os.path.join(root_path, single_file)
@@ -690,8 +690,8 @@ def verify_directory_hash_subcommand(
     """
     logger.verbose_logging = verbose
 
-    if not os.path.isabs(root_path):
-        root_path = os.path.join(os.getcwd(), root_path)
+    # absolute and normalised (no doubled / trailing separators), so that traversed paths equal the recorded ones
+    root_path = os.path.abspath(root_path)
 
     logger.verbose(f"check folder at path: {root_path}")
 
@@ -1028,8 +1028,8 @@ def diff_entire_folder_against_full_history_subcommand(root_path, verbose, ignor
     """
     logger.verbose_logging = verbose
 
-    if not os.path.isabs(root_path):
-        root_path = os.path.join(os.getcwd(), root_path)
+    # absolute and normalised (no doubled / trailing separators), so that traversed paths equal the recorded ones
+    root_path = os.path.abspath(root_path)
 
     logger.verbose(f"check folder at path: {root_path}")
 
@@ -1191,8 +1191,8 @@ def flatten_history(
 ):
     logger.verbose_logging = verbose
 
-    if not os.path.isabs(root_path):
-        root_path = os.path.join(os.getcwd(), root_path)
+    # absolute and normalised (no doubled / trailing separators), so that traversed paths equal the recorded ones
+    root_path = os.path.abspath(root_path)
 
     logger.verbose(f"Flattening folder at path: {root_path} ...")
 
@@ -1308,8 +1308,8 @@ def info_for_entire_history(root_path, verbose):
 
     logger.verbose_logging = verbose
 
-    if not os.path.isabs(root_path):
-        root_path = os.path.join(os.getcwd(), root_path)
+    # absolute and normalised (no doubled / trailing separators), so that traversed paths equal the recorded ones
+    root_path = os.path.abspath(root_path)
 
     logger.info(f"Info with history at path: {root_path}")
 
@@ -1346,8 +1346,8 @@ def info_for_single_file(root_path, verbose, single_file):
 
     logger.verbose_logging = verbose
 
-    if not os.path.isabs(root_path):
-        root_path = os.path.join(os.getcwd(), root_path)
+    # absolute and normalised (no doubled / trailing separators), so that traversed paths equal the recorded ones
+    root_path = os.path.abspath(root_path)
 
     logger.info(f"Info with history at path: {root_path}")
 
